@@ -730,7 +730,7 @@ def run(ck):
         run_sql(ck)
         run_exec(ck)
         # line_format templates alone: text/template Parse + LineFormatPlanner.visitNodes against model/LogqlTemplate.v (builder b4-lf)
-        tc = sqltext.run_tpl(ck, n_quick=1500, n_thorough=40000, corpus=os.path.join(CORPUS, "templates.jsonl"))
+        tc = sqltext.run_tpl(ck, n_quick=1000, n_thorough=40000, corpus=os.path.join(CORPUS, "templates.jsonl"))
         ck.coverage["evaluations"] += len(tc)
         ck.coverage["distinct_nontrivial"] += len({c["tpl"] for c in tc if c.get("verdict") == "p" and "{{" in c["tpl"]})
     finally:
